@@ -396,6 +396,19 @@ theorem cycle_from_min {c : List Nat} (h : IsCycle g c) :
         rw [e] at this
         exact this
 
+theorem Reach.walk {u v : Nat} (h : Reach g u v) : ∃ l, IsWalk g (u :: l) ∧ Edge g (lastD u l) v := by
+  induction h with
+  | single he => exact ⟨[], trivial, he⟩
+  | head he _ ih =>
+    obtain ⟨l, hw, hl⟩ := ih
+    exact ⟨_ :: l, ⟨he, hw⟩, hl⟩
+
+theorem cycle_of_reach {v : Nat} (h : Reach g v v) : ∃ c, IsCycle g c := by
+  obtain ⟨l, hw, hl⟩ := h.walk
+  refine ⟨v :: l, hw, ?_⟩
+  rw [getLastD_cons]
+  exact hl
+
 /-- **no cycle of the graph is shorter than the length `minCircle` reports** -/
 theorem minCircleLen_min (hc : Closed g) {c : List Nat} (h : IsCycle g c) :
     ∃ m, minCircleLen g = some m ∧ m ≤ c.length := by
